@@ -1,18 +1,21 @@
 (* C25 proofs: invariant J (reconnector bookkeeping) preserved by every step of Model/HostState.v *)
-From Coq Require Import ZArith List Bool Arith Lia.
+From Coq Require Import ZArith List Bool Arith Lia Permutation.
 From Verif Require Import HostState.
 Import ListNotations.
 
+(* pending reconnectors: scheduled, or with a connection attempt in flight *)
+Definition pend (s : st) : list nat := timers s ++ probes s.
+
 Definition J (s : st) : Prop :=
-  NoDup (timers s) /\
-  (forall r, In r (timers s) -> r < nrecs s) /\
-  (forall r, In r (timers s) -> rcanc (recs s r) = false -> reg (hosts s (rhost (recs s r))) = Some r) /\
+  NoDup (pend s) /\
+  (forall r, In r (pend s) -> r < nrecs s) /\
+  (forall r, In r (pend s) -> rcanc (recs s r) = false -> reg (hosts s (rhost (recs s r))) = Some r) /\
   (forall h r, reg (hosts s h) = Some r -> r < nrecs s) /\
   (forall h, present (hosts s h) = 2 -> reg (hosts s h) = None).
 
 (* s' differs from s only in parts J does not look at *)
 Definition same_core (s s' : st) : Prop :=
-  timers s' = timers s /\ nrecs s' = nrecs s /\ (forall r, recs s' r = recs s r) /\
+  pend s' = pend s /\ nrecs s' = nrecs s /\ (forall r, recs s' r = recs s r) /\
   (forall h, reg (hosts s' h) = reg (hosts s h)) /\
   (forall h, present (hosts s' h) = 2 -> present (hosts s h) = 2).
 
@@ -139,6 +142,32 @@ Proof.
     + apply IHl; auto.
 Qed.
 
+Lemma NoDup_insert (a b : list nat) r : NoDup (a ++ b) -> ~ In r (a ++ b) -> NoDup ((a ++ [r]) ++ b).
+Proof.
+  intros Hn Hi. apply (Permutation_NoDup (l := r :: a ++ b)).
+  - rewrite <- app_assoc. simpl. apply Permutation_middle.
+  - constructor; auto.
+Qed.
+
+Lemma in_insert (a b : list nat) r x : In x ((a ++ [r]) ++ b) -> In x (a ++ b) \/ x = r.
+Proof.
+  intros H. apply in_app_or in H. destruct H as [H | H].
+  - apply in_app_or in H. destruct H as [H | [H | []]]; [left; apply in_or_app; auto | right; auto].
+  - left; apply in_or_app; auto.
+Qed.
+
+(* (re)scheduling a reconnector that is not pending *)
+Lemma J_add s r : J s -> ~ In r (pend s) -> r < nrecs s ->
+  (rcanc (recs s r) = false -> reg (hosts s (rhost (recs s r))) = Some r) ->
+  J (set_timers s (timers s ++ [r])).
+Proof.
+  intros (J1 & J2 & J3 & J4 & J5) Hn Hlt Hreg.
+  split; [|split; [|split; [|split]]]; simpl; auto.
+  - apply NoDup_insert; auto.
+  - intros x Hx. apply in_insert in Hx. destruct Hx as [Hx | ->]; auto.
+  - intros x Hx Hc. apply in_insert in Hx. destruct Hx as [Hx | ->]; auto.
+Qed.
+
 Lemma J_start s h a : J s -> J (start_reconnector s h a).
 Proof.
   intros HJ. unfold start_reconnector.
@@ -146,45 +175,46 @@ Proof.
   destruct (negb (present (hosts s h) =? 1)) eqn:Ep; auto.
   apply negb_false_iff, Nat.eqb_eq in Ep.
   destruct HJ as (J1 & J2 & J3 & J4 & J5).
-  assert (Hfresh : ~ In (nrecs s) (timers s)) by (intros Hin; apply J2 in Hin; lia).
-  destruct (reg (hosts s h)) as [r0|] eqn:Er.
-  - assert (r0 < nrecs s) by eauto.
-    unfold cancel_opt, updr, updh, set_nrecs, set_timers; simpl. repeat split; simpl.
-    + apply NoDup_app_iff_local; auto.
-    + intros r Hr. apply in_app_or in Hr. destruct Hr as [Hr | [Hr | []]]; [apply J2 in Hr; lia | lia].
-    + intros r Hr Hc. apply in_app_or in Hr. destruct Hr as [Hr | [Hr | []]].
-      * assert (r < nrecs s) by auto.
-        destruct (r =? r0) eqn:E0; simpl in Hc; [discriminate|].
-        destruct (r =? nrecs s) eqn:E1; [apply Nat.eqb_eq in E1; lia|]. simpl in *.
-        specialize (J3 r Hr Hc).
-        destruct (rhost (recs s r) =? h) eqn:E2.
-        -- apply Nat.eqb_eq in E2. rewrite E2, Er in J3. inversion J3; subst. rewrite Nat.eqb_refl in E0; discriminate.
-        -- auto.
-      * subst r. destruct (nrecs s =? r0) eqn:E0; [apply Nat.eqb_eq in E0; lia|].
-        rewrite Nat.eqb_refl. simpl. rewrite Nat.eqb_refl. reflexivity.
-    + intros x r. destruct (x =? h).
-      * simpl. intros Hx; inversion Hx; subst. lia.
-      * intros Hx. apply J4 in Hx. lia.
-    + intros x Hx. destruct (x =? h) eqn:E.
-      * apply Nat.eqb_eq in E; subst. simpl in Hx. lia.
-      * auto.
-  - unfold cancel_opt, updr, updh, set_nrecs, set_timers; simpl. repeat split; simpl.
-    + apply NoDup_app_iff_local; auto.
-    + intros r Hr. apply in_app_or in Hr. destruct Hr as [Hr | [Hr | []]]; [apply J2 in Hr; lia | lia].
-    + intros r Hr Hc. apply in_app_or in Hr. destruct Hr as [Hr | [Hr | []]].
-      * assert (r < nrecs s) by auto.
-        destruct (r =? nrecs s) eqn:E1; [apply Nat.eqb_eq in E1; lia|]. simpl in *.
-        specialize (J3 r Hr Hc).
-        destruct (rhost (recs s r) =? h) eqn:E2.
-        -- apply Nat.eqb_eq in E2. rewrite E2, Er in J3. discriminate.
-        -- auto.
-      * subst r. rewrite Nat.eqb_refl. simpl. rewrite Nat.eqb_refl. reflexivity.
-    + intros x r. destruct (x =? h).
-      * simpl. intros Hx; inversion Hx; subst. lia.
-      * intros Hx. apply J4 in Hx. lia.
-    + intros x Hx. destruct (x =? h) eqn:E.
-      * apply Nat.eqb_eq in E; subst. simpl in Hx. lia.
-      * auto.
+  assert (Hfresh : ~ In (nrecs s) (pend s)) by (intros Hin; apply J2 in Hin; lia).
+  set (r := nrecs s) in *.
+  set (s2 := cancel_opt (updh (set_nrecs (updr s r (fun _ => mkr h a false
+               (match sched s with None => None | Some n => Some (pred n) end) false)) (S r)) h (h_reg (Some r))) (reg (hosts s h))).
+  assert (H2 : J s2).
+  { unfold s2. destruct (reg (hosts s h)) as [r0|] eqn:Er.
+    - assert (r0 < r) by (unfold r; eauto).
+      unfold cancel_opt, updr, updh, set_nrecs; simpl. split; [|split; [|split; [|split]]]; simpl; auto.
+      + intros x Hx. apply J2 in Hx. fold r in Hx. lia.
+      + intros x Hx Hc. assert (x < r) by (apply J2; auto).
+        destruct (x =? r0) eqn:E0; simpl in Hc; [discriminate|].
+        destruct (x =? r) eqn:E1; [apply Nat.eqb_eq in E1; lia|]. simpl in *.
+        specialize (J3 x Hx Hc).
+        destruct (rhost (recs s x) =? h) eqn:E2; auto.
+        apply Nat.eqb_eq in E2. rewrite E2, Er in J3. inversion J3; subst. rewrite Nat.eqb_refl in E0; discriminate.
+      + intros x y. destruct (x =? h).
+        * simpl. intros Hx; inversion Hx; subst. lia.
+        * intros Hx. apply J4 in Hx. fold r in Hx. lia.
+      + intros x Hx. destruct (x =? h) eqn:E; auto. apply Nat.eqb_eq in E; subst. simpl in Hx. lia.
+    - unfold cancel_opt, updr, updh, set_nrecs; simpl. split; [|split; [|split; [|split]]]; simpl; auto.
+      + intros x Hx. apply J2 in Hx. fold r in Hx. lia.
+      + intros x Hx Hc. assert (x < r) by (apply J2; auto).
+        destruct (x =? r) eqn:E1; [apply Nat.eqb_eq in E1; lia|]. simpl in *.
+        specialize (J3 x Hx Hc).
+        destruct (rhost (recs s x) =? h) eqn:E2; auto.
+        apply Nat.eqb_eq in E2. rewrite E2, Er in J3. discriminate.
+      + intros x y. destruct (x =? h).
+        * simpl. intros Hx; inversion Hx; subst. lia.
+        * intros Hx. apply J4 in Hx. fold r in Hx. lia.
+      + intros x Hx. destruct (x =? h) eqn:E; auto. apply Nat.eqb_eq in E; subst. simpl in Hx. lia. }
+  change (J (set_timers s2 (timers s2 ++ [r]))).
+  apply J_add; auto.
+  - assert (Hp : pend s2 = pend s) by (unfold s2; destruct (reg (hosts s h)); reflexivity).
+    rewrite Hp. exact Hfresh.
+  - assert (Hn2 : nrecs s2 = S r) by (unfold s2; destruct (reg (hosts s h)); reflexivity).
+    rewrite Hn2. lia.
+  - intros _. unfold s2. destruct (reg (hosts s h)) as [r0|] eqn:Er; unfold cancel_opt, updr, updh, set_nrecs; simpl.
+    + assert (r0 < r) by (unfold r; eauto).
+      destruct (r =? r0) eqn:E; [apply Nat.eqb_eq in E; lia|]. rewrite Nat.eqb_refl. simpl. rewrite Nat.eqb_refl. reflexivity.
+    + rewrite Nat.eqb_refl. simpl. rewrite Nat.eqb_refl. reflexivity.
 Qed.
 
 Lemma J_on_up s h : J s -> J (on_up s h).
@@ -275,21 +305,68 @@ Proof.
       * eapply IHl; eauto.
 Qed.
 
-Lemma J_pop s k : J s -> J (set_timers s (remove_nth k (timers s))).
+(* list facts for "pending = timers ++ probes" *)
+Lemma NoDup_pop_l (k : nat) (a b : list nat) : NoDup (a ++ b) -> NoDup (remove_nth k a ++ b).
 Proof.
-  intros (J1 & J2 & J3 & J4 & J5). repeat split; simpl; auto.
-  - apply NoDup_remove_nth; auto.
-  - intros r Hr. apply In_remove_nth in Hr. auto.
-  - intros r Hr Hc. apply In_remove_nth in Hr. auto.
+  revert k; induction a; intros k Hn; destruct k; simpl in *; auto.
+  - inversion Hn; auto.
+  - inversion Hn; subst. constructor; auto. intros Hin. apply H1.
+    apply in_app_or in Hin. apply in_or_app. destruct Hin as [Hin|Hin]; auto. left. eapply In_remove_nth; eauto.
 Qed.
 
-(* no live timer refers to host h *)
+Lemma NoDup_pop_r (j : nat) (a b : list nat) : NoDup (a ++ b) -> NoDup (a ++ remove_nth j b).
+Proof.
+  induction a; simpl; intros Hn.
+  - apply NoDup_remove_nth; auto.
+  - inversion Hn; subst. constructor; auto. intros Hin. apply H1.
+    apply in_app_or in Hin. apply in_or_app. destruct Hin as [Hin|Hin]; auto. right. eapply In_remove_nth; eauto.
+Qed.
+
+Lemma popped_l (k : nat) (a b : list nat) r : NoDup (a ++ b) -> nth_error a k = Some r -> ~ In r (remove_nth k a ++ b).
+Proof.
+  revert k; induction a; intros k Hn Hk; destruct k; simpl in *; try discriminate.
+  - inversion Hk; subst. inversion Hn; auto.
+  - inversion Hn; subst. intros [Hin | Hin].
+    + subst. apply H1. apply in_or_app. left. eapply nth_error_In; eauto.
+    + eapply IHa; eauto.
+Qed.
+
+Lemma popped_r (j : nat) (a b : list nat) r : NoDup (a ++ b) -> nth_error b j = Some r -> ~ In r (a ++ remove_nth j b).
+Proof.
+  induction a; simpl; intros Hn Hj.
+  - eapply nth_removed; eauto.
+  - inversion Hn; subst. intros [Hin | Hin].
+    + subst. apply H1. apply in_or_app. right. eapply nth_error_In; eauto.
+    + eapply IHa; eauto.
+Qed.
+
+Lemma J_pop s k : J s -> J (set_timers s (remove_nth k (timers s))).
+Proof.
+  intros (J1 & J2 & J3 & J4 & J5).
+  assert (Hsub : forall r, In r (pend (set_timers s (remove_nth k (timers s)))) -> In r (pend s)).
+  { intros r Hr. unfold pend in *; simpl in *. apply in_app_or in Hr. apply in_or_app.
+    destruct Hr as [Hr|Hr]; auto. left. eapply In_remove_nth; eauto. }
+  split; [|split; [|split; [|split]]]; simpl; auto.
+  unfold pend; simpl. apply NoDup_pop_l; auto.
+Qed.
+
+Lemma J_pop_probe s j : J s -> J (set_probes s (remove_nth j (probes s))).
+Proof.
+  intros (J1 & J2 & J3 & J4 & J5).
+  assert (Hsub : forall r, In r (pend (set_probes s (remove_nth j (probes s)))) -> In r (pend s)).
+  { intros r Hr. unfold pend in *; simpl in *. apply in_app_or in Hr. apply in_or_app.
+    destruct Hr as [Hr|Hr]; auto. right. eapply In_remove_nth; eauto. }
+  split; [|split; [|split; [|split]]]; simpl; auto.
+  unfold pend; simpl. apply NoDup_pop_r; auto.
+Qed.
+
+(* no live pending reconnector refers to host h *)
 Definition quietH (s : st) (h : nat) : Prop :=
-  forall r, In r (timers s) -> rhost (recs s r) = h -> rcanc (recs s r) = true.
+  forall r, In r (pend s) -> rhost (recs s r) = h -> rcanc (recs s r) = true.
 
 Lemma J_clear s h : J s -> quietH s h -> J (updh s h (h_reg None)).
 Proof.
-  intros (J1 & J2 & J3 & J4 & J5) Hq. unfold updh. repeat split; simpl; auto.
+  intros (J1 & J2 & J3 & J4 & J5) Hq. unfold updh. split; [|split; [|split; [|split]]]; simpl; auto.
   - intros r Hr Hc. destruct (rhost (recs s r) =? h) eqn:E; auto.
     apply Nat.eqb_eq in E. rewrite (Hq r Hr E) in Hc. discriminate.
   - intros x r. destruct (x =? h); simpl; [discriminate | eauto].
@@ -330,51 +407,74 @@ Proof.
   apply Nat.eqb_eq in E; subst. destruct (Hf (recs s r)) as [F1 F2]. rewrite F1 in Hc. rewrite F2. auto.
 Qed.
 
-Lemma J_readd s r : J s -> ~ In r (timers s) -> r < nrecs s ->
+(* second half of run(): r has been taken out of the pending list *)
+Lemma J_probe_finish s r o : J s -> ~ In r (pend s) -> r < nrecs s ->
   (rcanc (recs s r) = false -> reg (hosts s (rhost (recs s r))) = Some r) ->
-  J (set_timers s (timers s ++ [r])).
+  J (probe_finish s r o).
 Proof.
-  intros (J1 & J2 & J3 & J4 & J5) Hn Hlt Hreg.
-  split; [|split; [|split; [|split]]]; simpl; auto.
-  - apply NoDup_app_iff_local; auto.
-  - intros x Hx. apply in_app_or in Hx. destruct Hx as [Hx | [Hx | []]]; auto. subst; auto.
-  - intros x Hx Hc. apply in_app_or in Hx. destruct Hx as [Hx | [Hx | []]]; auto. subst; auto.
+  intros HJ Hnot Hlt Hreg. unfold probe_finish. destruct o.
+  - destruct (rcanc (recs s r)) eqn:Ec; auto.
+    assert (Hq : quietH s (rhost (recs s r))).
+    { destruct HJ as (J1 & J2 & J3 & J4 & J5).
+      intros r' Hr' Hh. destruct (rcanc (recs s r')) eqn:Ec'; auto. exfalso.
+      pose proof (J3 r' Hr' Ec') as R2. rewrite Hh in R2. rewrite (Hreg eq_refl) in R2. inversion R2; subst. auto. }
+    apply J_clear.
+    + destruct (radd (recs s r)).
+      * eapply J_frame; [apply sc_on_add|]. exact HJ.
+      * apply J_on_up. exact HJ.
+    + destruct (radd (recs s r)).
+      * eapply quietH_frame; [apply sc_on_add|]. exact Hq.
+      * apply quietH_on_up. exact Hq.
+  - destruct (rleft (recs s r)) as [[|n]|].
+    + apply J_updr_keep; auto.
+    + apply (J_add (updr s r (r_left (Some n))) r); simpl; auto.
+      * apply (J_updr_keep s r (r_left (Some n))); auto.
+      * rewrite Nat.eqb_refl. simpl. exact Hreg.
+    + apply J_add; auto.
+  - apply J_updr_keep; auto.
 Qed.
 
 Lemma J_reconnect s k r o : J s -> nth_error (timers s) k = Some r ->
   J (reconnect (set_timers s (remove_nth k (timers s))) r o).
 Proof.
   intros HJ Hk. pose proof (J_pop s k HJ) as HP.
-  assert (Hin : In r (timers s)) by (eapply nth_error_In; eauto).
-  assert (Hnot : ~ In r (remove_nth k (timers s))) by (destruct HJ as (J1 & _); eapply nth_removed; eauto).
-  assert (Hlt : r < nrecs s) by (destruct HJ as (_ & J2 & _); auto).
-  assert (Hregr : rcanc (recs s r) = false -> reg (hosts s (rhost (recs s r))) = Some r) by (destruct HJ as (_ & _ & J3 & _); auto).
-  set (s0 := set_timers s (remove_nth k (timers s))) in *.
-  unfold reconnect. destruct (rcanc (recs s0 r)) eqn:Ec; auto.
-  assert (Hq : quietH s0 (rhost (recs s0 r))).
-  { destruct HJ as (J1 & J2 & J3 & J4 & J5).
-    intros r' Hr' Hh. destruct (rcanc (recs s0 r')) eqn:Ec'; auto. exfalso.
-    assert (Hin' : In r' (timers s)) by (eapply In_remove_nth; exact Hr').
-    pose proof (J3 r Hin Ec) as R1. pose proof (J3 r' Hin' Ec') as R2.
-    change (recs s0) with (recs s) in Hh. rewrite Hh in R2. rewrite R1 in R2. inversion R2; subst.
-    apply Hnot; auto. }
-  destruct o.
-  - apply J_clear.
-    + destruct (radd (recs s0 r)).
-      * eapply J_frame; [apply sc_on_add|]. eapply J_frame; [| exact HP]. sc.
-      * apply J_on_up. eapply J_frame; [| exact HP]. sc.
-    + destruct (radd (recs s0 r)).
-      * eapply quietH_frame; [apply sc_on_add|]. eapply quietH_frame; [| exact Hq]. sc.
-      * apply quietH_on_up. eapply quietH_frame; [| exact Hq]. sc.
-  - assert (HE : J (emit s0 (NAttempt (rhost (recs s0 r))))) by (eapply J_frame; [| exact HP]; sc).
-    set (s1 := emit s0 _) in *.
-    destruct (rleft (recs s0 r)) as [[|n]|].
-    + apply J_updr_keep; auto.
-    + apply (J_readd (updr s1 r (r_left (Some n))) r); simpl; auto.
-      * apply (J_updr_keep s1 r (r_left (Some n))); auto.
-      * rewrite Nat.eqb_refl. simpl. intros _. apply Hregr. exact Ec.
-    + apply (J_readd s1 r); simpl; auto.
-  - apply J_updr_keep; auto.
+  assert (Hin : In r (pend s)) by (apply in_or_app; left; eapply nth_error_In; eauto).
+  assert (Hnot : ~ In r (pend (set_timers s (remove_nth k (timers s)))))
+    by (destruct HJ as (J1 & _); unfold pend; simpl; eapply popped_l; eauto).
+  destruct HJ as (J1 & J2 & J3 & J4 & J5).
+  unfold reconnect. destruct (rcanc (recs (set_timers s (remove_nth k (timers s))) r)) eqn:Ec; auto.
+  apply J_probe_finish; [exact HP | exact Hnot | apply J2; exact Hin | intros Hc; apply J3; auto].
+Qed.
+
+Lemma J_probe_start s k r : J s -> nth_error (timers s) k = Some r ->
+  J (probe_start (set_timers s (remove_nth k (timers s))) r).
+Proof.
+  intros HJ Hk. pose proof (J_pop s k HJ) as HP.
+  assert (Hin : In r (pend s)) by (apply in_or_app; left; eapply nth_error_In; eauto).
+  assert (Hnot : ~ In r (pend (set_timers s (remove_nth k (timers s)))))
+    by (destruct HJ as (J1 & _); unfold pend; simpl; eapply popped_l; eauto).
+  destruct HJ as (J1 & J2 & J3 & J4 & J5).
+  unfold probe_start. set (s0 := set_timers s (remove_nth k (timers s))) in *.
+  destruct (rcanc (recs s0 r)) eqn:Ec; [exact HP|].
+  destruct HP as (P1 & P2 & P3 & P4 & P5).
+  assert (Hpe : forall x, In x (pend (set_probes (emit s0 (NAttempt (rhost (recs s0 r)))) (probes s0 ++ [r]))) -> In x (pend s0) \/ x = r).
+  { intros x Hx. unfold pend in *; simpl in *. rewrite app_assoc in Hx. apply in_app_or in Hx.
+    destruct Hx as [Hx | [Hx | []]]; auto. }
+  split; [|split; [|split; [|split; [exact P4 | exact P5]]]].
+  - unfold pend; simpl. rewrite app_assoc. apply NoDup_app_iff_local; auto.
+  - intros x Hx. apply Hpe in Hx. destruct Hx as [Hx | ->]; [apply P2; auto | apply (J2 r Hin)].
+  - intros x Hx Hc. apply Hpe in Hx. destruct Hx as [Hx | ->]; [apply P3; auto | apply (J3 r Hin); exact Hc].
+Qed.
+
+Lemma J_probe_finish_ev s j r o : J s -> nth_error (probes s) j = Some r ->
+  J (probe_finish (set_probes s (remove_nth j (probes s))) r o).
+Proof.
+  intros HJ Hj. pose proof (J_pop_probe s j HJ) as HP.
+  assert (Hin : In r (pend s)) by (apply in_or_app; right; eapply nth_error_In; eauto).
+  assert (Hnot : ~ In r (pend (set_probes s (remove_nth j (probes s)))))
+    by (destruct HJ as (J1 & _); unfold pend; simpl; eapply popped_r; eauto).
+  destruct HJ as (J1 & J2 & J3 & J4 & J5).
+  apply J_probe_finish; [exact HP | exact Hnot | apply J2; exact Hin | intros Hc; apply J3; auto].
 Qed.
 
 Lemma J_step_ s e : J s -> J (step_ s e).
@@ -387,6 +487,8 @@ Proof.
   - destruct (present (hosts s h) =? 1); auto. apply J_on_remove; auto.
   - destruct (nth_error (timers s) k) eqn:Ek; auto. apply J_reconnect; auto.
   - destruct (nth_error (queue s) k) eqn:Ek; auto. apply J_run_task. auto.
+  - destruct (nth_error (timers s) k) eqn:Ek; auto. apply J_probe_start; auto.
+  - destruct (nth_error (probes s) j) eqn:Ek; auto. apply J_probe_finish_ev; auto.
 Qed.
 
 Lemma J_step s e : J s -> J (fst (step s e)).
@@ -404,7 +506,7 @@ Proof.
 Qed.
 
 (* ------------------------------------------------------------------ consequences *)
-Definition live (s : st) (r : nat) : Prop := In r (timers s) /\ rcanc (recs s r) = false.
+Definition live (s : st) (r : nat) : Prop := In r (pend s) /\ rcanc (recs s r) = false.
 
 Lemma at_most_one_live s r1 r2 : J s -> live s r1 -> live s r2 -> rhost (recs s r1) = rhost (recs s r2) -> r1 = r2.
 Proof.
@@ -428,7 +530,28 @@ Lemma removed_fire_noop s k r o : J s -> nth_error (timers s) k = Some r -> pres
 Proof.
   intros HJ Hk Hp. simpl. rewrite Hk. unfold reconnect. simpl.
   destruct (rcanc (recs s r)) eqn:Ec; auto. exfalso.
-  destruct (removed_no_reconnector s _ HJ Hp) as [_ Hn]. apply (Hn r); auto. split; auto. eapply nth_error_In; eauto.
+  destruct (removed_no_reconnector s _ HJ Hp) as [_ Hn]. apply (Hn r); auto. split; auto.
+  apply in_or_app; left. eapply nth_error_In; eauto.
+Qed.
+
+(* the same for the split attempt: starting it does nothing; if the host is removed while the attempt is in flight, its
+   successful completion does nothing either (no on_up / on_add for the removed host) *)
+Lemma removed_probe_start_noop s k r : J s -> nth_error (timers s) k = Some r -> present (hosts s (rhost (recs s r))) = 2 ->
+  step_ s (EProbeStart k) = set_timers s (remove_nth k (timers s)).
+Proof.
+  intros HJ Hk Hp. simpl. rewrite Hk. unfold probe_start. simpl.
+  destruct (rcanc (recs s r)) eqn:Ec; auto. exfalso.
+  destruct (removed_no_reconnector s _ HJ Hp) as [_ Hn]. apply (Hn r); auto. split; auto.
+  apply in_or_app; left. eapply nth_error_In; eauto.
+Qed.
+
+Lemma removed_probe_finish_noop s j r : J s -> nth_error (probes s) j = Some r -> present (hosts s (rhost (recs s r))) = 2 ->
+  step_ s (EProbeFinish j OOk) = set_probes s (remove_nth j (probes s)).
+Proof.
+  intros HJ Hj Hp. simpl. rewrite Hj. unfold probe_finish. simpl.
+  destruct (rcanc (recs s r)) eqn:Ec; auto. exfalso.
+  destruct (removed_no_reconnector s _ HJ Hp) as [_ Hn]. apply (Hn r); auto. split; auto.
+  apply in_or_app; right. eapply nth_error_In; eauto.
 Qed.
 
 (* a removed host never gets a reconnector again: _start_reconnector is a no-op for it *)
